@@ -2,19 +2,9 @@ import PsV.Model.Fits
 /-!
 # Helper lemmas for C06: `readCore (writeGen …)` computed symbolically
 
-Mathlib-free.  The two definitions `rowMajor` and `pad8` are used in the statements of `PsV/Props/C06.lean`.
+Mathlib-free.  (`rowMajor` and `pad8`, used in the statements of `PsV/Props/C06.lean`, live in `PsV/Model/Fits.lean`.)
 -/
 namespace PsV.Fits
-
-/-! ## definitions used by the statements of C06 -/
-
-/-- row-major strides: `strides[i] = Π_{j>i} naxes[j]` -/
-def rowMajor : List Nat → List Nat
-  | [] => []
-  | _ :: as => prod as :: rowMajor as
-
-/-- trailing-blank padding to 8 characters (what FITS does to short string values) -/
-def pad8 (v : Str) : Str := v ++ List.replicate (8 - v.length) ' '
 
 /-! ## generic list lemmas -/
 
